@@ -33,6 +33,7 @@ type foldCase struct {
 	op           opInfo
 	a, b         *big.Int // b = shift count for shifts; ignored for unary
 	aform, bform string
+	heavy        bool // wide case with the multiplying / dividing consumers
 }
 
 func (c foldCase) key() string {
@@ -181,9 +182,22 @@ func (c foldCase) exprs() (constExprS, rtExprS string) {
 	return c.op.expr(A, B), c.op.expr("a", rb)
 }
 
+// consumers of the case's result.  Divider / multiplier circuits of more than
+// 64 bits cost seconds to compile, so wide cases carry them only when `heavy`.
 func (c foldCase) consumers() []consumer {
 	if c.op.cmp {
 		return boolConsumers
+	}
+	if c.t.n > 64 && !c.heavy {
+		var cs []consumer
+		for _, x := range intConsumers {
+			switch x.name {
+			case "mul", "div", "divby", "mod":
+			default:
+				cs = append(cs, x)
+			}
+		}
+		return cs
 	}
 	return intConsumers
 }
@@ -201,9 +215,11 @@ func compileRT(c foldCase, cons []consumer, rexpr string) compiledProg {
 		return p
 	}
 	p := compileReal(buildProgram(c.t, rexpr, c.op.cmp, cons, true, c.op.unary, c.op.shift))
-	if len(rtCache) < 20000 {
-		rtCache[k] = p
+	p.prog = nil
+	if len(rtCache) >= 150 {
+		rtCache = map[rtKey]compiledProg{}
 	}
+	rtCache[k] = p
 	return p
 }
 
@@ -535,6 +551,11 @@ func genCase(r *hxlib.Rng, i int) foldCase {
 		return c
 	}
 	c.t = ityp{r.Bool(), pickWidth(r)}
+	if c.t.n > 64 && r.Intn(3) == 0 {
+		// wide types are an order of magnitude more expensive per case
+		c.t.n = []int{1, 7, 8, 31, 32, 33, 63, 64}[r.Intn(8)]
+	}
+	c.heavy = r.Intn(5) == 0
 	c.op = intOps[i%len(intOps)]
 	c.a, c.b = randValue(r, c.t), randValue(r, c.t)
 	c.aform = []string{"cast", "neg"}[r.Intn(2)]
